@@ -1,0 +1,38 @@
+//go:build verif
+
+package fdpool
+
+// Contracts for the gvc verifier (/verif). Comment-only; never compiled into
+// a normal build.
+//
+// Pool is a monitor on p.mu (property C24: the pool knows every pooled
+// descriptor that is open, so that the number of open pooled handles stays
+// within capacity plus the pinned ones). Invariant, for all Handles h and all
+// list elements e (it holds whenever p.mu is free, hence under every schedule):
+//   registered: h.elem != nil ==> h.elem is linked in the LRU list and its entry names h
+//   back:       e linked ==> the entry stored in e points back: e.Value.h.elem == e
+// A Handle that claims to be registered therefore always names a live LRU
+// element: a Touch on it really refreshes the Member, and an evicted or
+// forgotten Member re-registers on its next Touch instead of being ignored.
+//gvc:pred pool_registered() = forall(h, allocated(field(h, "Handle.elem")) && (field(h, "Handle.elem") != nil ==> field(h, "Handle.elem").#inl && field(field(field(h, "Handle.elem"), "list.Element.Value"), "entry.h") == h))
+//gvc:pred pool_back() = forall(e, e != nil && e.#inl ==> allocated(e) && allocated(field(e, "list.Element.Value")) && field(e, "list.Element.Value") != nil && field(field(e, "list.Element.Value"), "entry.h") != nil && field(field(field(e, "list.Element.Value"), "entry.h"), "Handle.elem") == e)
+
+//gvc:func (*Pool).Touch
+//gvc:  props C24
+//gvc:  theory int
+//gvc:  opt coarse
+//gvc:  opt frame args
+//gvc:  opt nomerge
+//gvc:  monitor p invariant registered: pool_registered()
+//gvc:  monitor p invariant back: pool_back()
+//gvc:  loop 1 invariant victim: (victimElem == nil || victimElem.#inl) && (e == nil || e.#inl) && pool_back() && h.elem != nil && pool_registered()
+//gvc:end
+
+//gvc:func (*Pool).Forget
+//gvc:  props C24
+//gvc:  theory int
+//gvc:  opt coarse
+//gvc:  opt frame args
+//gvc:  monitor p invariant registered: pool_registered()
+//gvc:  monitor p invariant back: pool_back()
+//gvc:end
